@@ -138,26 +138,38 @@ Definition tally (l : list pod) : counts * Z :=
   fold_right (fun p acc => (cadd (fst (classify p)) (fst acc), snd (classify p) + snd acc)) (c0, 0) l.
 
 (* ---------- world ---------- *)
+(* what else the controller's cache / listers know *)
+Record ctl := mkCtl {
+  c_job : bool;      (* the job cache holds the Job (else only a placeholder with pods, or nothing) *)
+  c_dirty : bool;    (* the API server's job object changed since the informer last delivered it *)
+  c_wdel : bool;     (* the job on the API server has a deletion timestamp *)
+  c_vdel : bool;     (* ... and the cached copy shows it *)
+  c_queue : bool }.  (* the job's queue is in the queue lister *)
+Definition ctl_dirty (c : ctl) : ctl := mkCtl (c_job c) true (c_wdel c) (c_vdel c) (c_queue c).
+
 Record world := mkWorld {
   w_spec : spec;  v_spec : spec;          (* job spec: API server / job cache *)
   w_st : status;  v_st : status;          (* job status: API server / job cache *)
   w_pods : list pod;  v_pods : list pod;  (* pods: API server / job cache and pod lister *)
-  w_pg : option pgphase;  v_pg : option pgphase }.   (* PodGroup: API server / lister *)
+  w_pg : option pgphase;  v_pg : option pgphase;     (* PodGroup: API server / lister *)
+  v_ctl : ctl }.
 
 Definition set_st (w : world) (a b : status) : world :=
-  mkWorld (w_spec w) (v_spec w) a b (w_pods w) (v_pods w) (w_pg w) (v_pg w).
+  mkWorld (w_spec w) (v_spec w) a b (w_pods w) (v_pods w) (w_pg w) (v_pg w) (v_ctl w).
 Definition set_wpods (w : world) (l : list pod) : world :=
-  mkWorld (w_spec w) (v_spec w) (w_st w) (v_st w) l (v_pods w) (w_pg w) (v_pg w).
+  mkWorld (w_spec w) (v_spec w) (w_st w) (v_st w) l (v_pods w) (w_pg w) (v_pg w) (v_ctl w).
 Definition set_wpg (w : world) (g : option pgphase) : world :=
-  mkWorld (w_spec w) (v_spec w) (w_st w) (v_st w) (w_pods w) (v_pods w) g (v_pg w).
+  mkWorld (w_spec w) (v_spec w) (w_st w) (v_st w) (w_pods w) (v_pods w) g (v_pg w) (v_ctl w).
 (* a successful UpdateStatus: API server and (cc.cache.Update of the returned
-   object, which carries the API server's current spec) the job cache *)
+   object, which carries the API server's current spec) the job cache; the
+   informer has a new version of the job to deliver *)
 Definition write (w : world) (s : status) : world :=
-  mkWorld (w_spec w) (w_spec w) s s (w_pods w) (v_pods w) (w_pg w) (v_pg w).
+  mkWorld (w_spec w) (w_spec w) s s (w_pods w) (v_pods w) (w_pg w) (v_pg w) (ctl_dirty (v_ctl w)).
 
 (* ---------- requests ---------- *)
 Inductive fault := FCreate (t : positive) (i : Z) | FDelete (t : positive) (i : Z)
-                 | FPatch (t : positive) (i : Z) | FStatus (n : Z).
+                 | FPatch (t : positive) (i : Z) | FStatus (n : Z)
+                 | FPgWrite (k : Z).   (* a PodGroup create/update is refused (law-only histories; ignored by this model) *)
 
 Record req := mkReq {
   r_event : event;
@@ -378,6 +390,8 @@ Definition in_kill (kill : list pod) (p : pod) : bool := existsb (same_id (p_tas
    i.e. never on the success path (defect F2). *)
 Definition kill_pods_gen (fixed : bool) (w : world) (rt : retain) (tg : option target) (u : updfn) (F : list fault)
   : world * bool * bool (* error, status written *) :=
+  if c_vdel (v_ctl w) then (w, false, false)   (* job.DeletionTimestamp != nil: "skip management process" *)
+  else
   match tg with
   | Some TPartition => (w, false, false)    (* jobInfo.Partitions has no entry: "skip management process" *)
   | _ =>
@@ -500,6 +514,9 @@ Definition leak (fixed : bool) (w : world) (init : bool) (s : status) : world :=
 
 Definition sync_job_gen (fixed : bool) (w : world) (u : updfn) (F : list fault) : world * bool * bool :=
   let sp0 := v_spec w in   (* the spec of the job object the state closure holds (ps.job.Job) *)
+  if c_vdel (v_ctl w) then (w, false, false)          (* job is terminating: skip *)
+  else if negb (c_queue (v_ctl w)) then (w, true, false)   (* GetQueueInfo fails *)
+  else
   (* initiateJob / initJobStatus *)
   let init := phase_beq (st_phase (v_st w)) PhNone in
   if init && fails_status F 0 then (w, true, false)
@@ -532,6 +549,8 @@ Definition sync_job_prefix := sync_job_gen false.
 
 (* ---------- processNextReq ---------- *)
 Definition step_req (w : world) (r : req) (F : list fault) : world * bool * bool :=
+  if negb (c_job (v_ctl w)) then (w, false, false)   (* cc.cache.Get fails ("job is not ready"): the request is dropped *)
+  else
   let a := apply_policies (v_spec w) (v_st w) r in
   match exec (st_phase (v_st w)) a with
   | (KSync, u) => sync_job w u F
@@ -540,6 +559,8 @@ Definition step_req (w : world) (r : req) (F : list fault) : world * bool * bool
   end.
 
 (* ---------- histories ---------- *)
+Definition fresh_status : status := mkStatus PhNone 0 0 0 c0 0 [] true false.
+
 Inductive op :=
 | OReq (r : req) (F : list fault)
 | OPodPhase (t : positive) (i : Z) (ph : pphase)     (* kubelet *)
@@ -547,7 +568,10 @@ Inductive op :=
 | OPodGone (t : positive) (i : Z)                    (* the pod object disappears *)
 | OPgPhase (g : pgphase)                             (* scheduler *)
 | OSyncJob | OSyncPods | OSyncPg                     (* informer deliveries *)
-| OSetSpec (sp : spec).                              (* user updates the job spec *)
+| OSetSpec (sp : spec)                               (* user updates the job spec *)
+| ORestart                                           (* the controller process restarts: empty cache and listers *)
+| OReplaceJob (sp : spec)                            (* the job is deleted and re-created under the same name; its old pods are still around *)
+| OJobDeleting.                                      (* the job gets a deletion timestamp *)
 
 Definition step (w : world) (o : op) : world * bool * bool :=
   match o with
@@ -557,10 +581,26 @@ Definition step (w : world) (o : op) : world * bool * bool :=
   | OPodDeleting t i => (set_wpods w (api_delete t i (w_pods w)), false, false)
   | OPodGone t i => (set_wpods w (remove_pod t i (w_pods w)), false, false)
   | OPgPhase g => (match w_pg w with Some _ => set_wpg w (Some g) | None => w end, false, false)
-  | OSyncJob => (mkWorld (w_spec w) (w_spec w) (w_st w) (w_st w) (w_pods w) (v_pods w) (w_pg w) (v_pg w), false, false)
-  | OSyncPods => (mkWorld (w_spec w) (v_spec w) (w_st w) (v_st w) (w_pods w) (w_pods w) (w_pg w) (v_pg w), false, false)
-  | OSyncPg => (mkWorld (w_spec w) (v_spec w) (w_st w) (v_st w) (w_pods w) (v_pods w) (w_pg w) (w_pg w), false, false)
-  | OSetSpec sp => (mkWorld sp (v_spec w) (w_st w) (v_st w) (w_pods w) (v_pods w) (w_pg w) (v_pg w), false, false)
+  | OSyncJob =>
+      (* addJob (cache.Add: SetJob on a placeholder keeps the pods registered before the job) /
+         updateJob (ignored when the resourceVersion did not change) *)
+      if c_job (v_ctl w) && negb (c_dirty (v_ctl w)) then (w, false, false)
+      else (mkWorld (w_spec w) (w_spec w) (w_st w) (w_st w) (w_pods w) (v_pods w) (w_pg w) (v_pg w)
+                    (mkCtl true false (c_wdel (v_ctl w)) (c_wdel (v_ctl w)) (c_queue (v_ctl w))), false, false)
+  | OSyncPods => (mkWorld (w_spec w) (v_spec w) (w_st w) (v_st w) (w_pods w) (w_pods w) (w_pg w) (v_pg w) (v_ctl w), false, false)
+  | OSyncPg => (mkWorld (w_spec w) (v_spec w) (w_st w) (v_st w) (w_pods w) (v_pods w) (w_pg w) (w_pg w) (v_ctl w), false, false)
+  | OSetSpec sp => (mkWorld sp (v_spec w) (w_st w) (v_st w) (w_pods w) (v_pods w) (w_pg w) (v_pg w) (ctl_dirty (v_ctl w)), false, false)
+  | ORestart =>
+      (mkWorld (w_spec w) (v_spec w) (w_st w) (v_st w) (w_pods w) [] (w_pg w) None
+               (mkCtl false true (c_wdel (v_ctl w)) false (c_queue (v_ctl w))), false, false)
+  | OReplaceJob sp =>
+      (* deleteJob: cache.Delete drops the Job, keeps the pods; the new job has no status yet and
+         its PodGroup name (job name + uid) is new *)
+      (mkWorld sp (v_spec w) fresh_status (v_st w) (w_pods w) (v_pods w) None None
+               (mkCtl false true false false (c_queue (v_ctl w))), false, false)
+  | OJobDeleting =>
+      (mkWorld (w_spec w) (v_spec w) (w_st w) (v_st w) (w_pods w) (v_pods w) (w_pg w) (v_pg w)
+               (mkCtl (c_job (v_ctl w)) true true (c_vdel (v_ctl w)) (c_queue (v_ctl w))), false, false)
   end.
 
 Definition run (w : world) (ops : list op) : world := fold_left (fun w o => fst (fst (step w o))) ops w.
@@ -572,5 +612,7 @@ Fixpoint trace (w : world) (ops : list op) : list (world * bool * bool) :=
   | o :: r => let x := step w o in x :: trace (fst (fst x)) r
   end.
 
-Definition init_world (sp : spec) (st : status) (pods : list pod) (pg : option pgphase) : world :=
-  mkWorld sp sp st st pods pods pg pg.
+Definition init_ctl (queue : bool) : ctl := mkCtl true false false false queue.
+Definition init_world_q (queue : bool) (sp : spec) (st : status) (pods : list pod) (pg : option pgphase) : world :=
+  mkWorld sp sp st st pods pods pg pg (init_ctl queue).
+Definition init_world := init_world_q true.
